@@ -356,7 +356,8 @@ func TestC12_Sign(t *testing.T) {
 			c.Base.HashAlg = rapid.SampledFrom([]int64{-14, -15, -17, 0, 1, -100000, -7, -9223372036854775808, -9223372036854775807, 9223372036854775807, -45, -42}).Draw(rt, "unknown-hash")
 			c.Base.Hash = gen.Blob(rt, "uhash", rapid.IntRange(0, 70).Draw(rt, "uhashlen"))
 		case 1:
-			n := hashLen(c.Base.HashAlg) + rapid.SampledFrom([]int{-1, 1, -32, 16}).Draw(rt, "lendelta")
+			// (also lengths that differ from the right one by a multiple of 2^13 octets = 2^16 bits, of 256 and of 2^16 octets)
+			n := hashLen(c.Base.HashAlg) + rapid.SampledFrom([]int{-1, 1, -32, 16, 8192, 16384, 65536, 256, 512, 32, 8192 - 32}).Draw(rt, "lendelta")
 			if n < 0 {
 				n = 0
 			}
@@ -547,7 +548,7 @@ func genC12VerifyCase(rt *rapid.T) c12VerifyCase {
 			n = rapid.IntRange(0, 70).Draw(rt, "free-len")
 		}
 		if rapid.IntRange(0, 4).Draw(rt, "badlen") == 0 {
-			n = rapid.SampledFrom([]int{0, 31, 32, 33, 47, 48, 49, 63, 64, 65}).Draw(rt, "len")
+			n = rapid.SampledFrom([]int{0, 31, 32, 33, 47, 48, 49, 63, 64, 65, 8192, 8224, 8240, 8256, 16416, 65568, 65584, 65600, 288, 304, 320}).Draw(rt, "len")
 		}
 		c.Hash = gen.Blob(rt, "hash", n)
 		if c.Hash == nil {
